@@ -31,23 +31,23 @@ type Prelude struct {
 }
 
 type Engine struct {
-	repo     string
-	modPath  string
-	fset     *token.FileSet
-	prog     *ssa.Program
-	pkgs     map[string]*ssa.Package
-	tpkgs    map[string]*types.Package
-	specs    *SpecDB
-	fnByKey  map[string]*ssa.Function // pkgpath::Recv.Name
-	allFns   []*ssa.Function
-	preludes map[string]*Prelude
-	specFns  map[string]specFuncSig
-	sorts    map[string]bool
-	typeIDs  map[string]int
-	strIDs   map[string]int
-	verbose  bool
+	repo          string
+	modPath       string
+	fset          *token.FileSet
+	prog          *ssa.Program
+	pkgs          map[string]*ssa.Package
+	tpkgs         map[string]*types.Package
+	specs         *SpecDB
+	fnByKey       map[string]*ssa.Function // pkgpath::Recv.Name
+	allFns        []*ssa.Function
+	preludes      map[string]*Prelude
+	specFns       map[string]specFuncSig
+	sorts         map[string]bool
+	typeIDs       map[string]int
+	strIDs        map[string]int
+	verbose       bool
 	blockCanaries bool
-	aliases  map[string]map[string]string // package path -> import alias -> imported path
+	aliases       map[string]map[string]string // package path -> import alias -> imported path
 }
 
 func fnKey(f *ssa.Function) string {
